@@ -61,6 +61,14 @@ ALLOWED_AXIOMS = {
 }
 
 
+def evidence_dir():
+    """evidence/ holds runs against /repo itself; runs against any other tree
+    (VERIF_REPO=… used to try seeded changes) must not overwrite it"""
+    if os.path.realpath(REPO) == "/repo":
+        return os.path.join(VERIF, "evidence")
+    return os.path.join(VERIF, "build", "evidence-other-tree")
+
+
 def log(*a):
     print(*a, file=sys.stderr, flush=True)
 
@@ -781,8 +789,8 @@ class Check:
                     ev["coverage"] = cov
                     ev["wall_s"] = round(time.time() - self.t0, 2)
                     ev["violations"] = 1
-                    os.makedirs(os.path.join(VERIF, "evidence"), exist_ok=True)
-                    json.dump(ev, open(os.path.join(VERIF, "evidence", prop + ".json"), "w"), indent=1)
+                    os.makedirs(evidence_dir(), exist_ok=True)
+                    json.dump(ev, open(os.path.join(evidence_dir(), prop + ".json"), "w"), indent=1)
                     return 1
                 self.notes.append("config %s did not build: %s" % (cfgname, str(e)[-300:]))
 
@@ -1002,8 +1010,8 @@ class Check:
         ev["assumptions"] = getattr(spec, "ASSUMPTIONS", [])
         ev["wall_s"] = round(time.time() - self.t0, 2)
         ev["violations"] = len(vio_lines)
-        os.makedirs(os.path.join(VERIF, "evidence"), exist_ok=True)
-        json.dump(ev, open(os.path.join(VERIF, "evidence", prop + ".json"), "w"), indent=1)
+        os.makedirs(evidence_dir(), exist_ok=True)
+        json.dump(ev, open(os.path.join(evidence_dir(), prop + ".json"), "w"), indent=1)
         log("[%s %s] cases=%d configs=%s obligations=%d/%d divergences=%d oracle_fail=%d known=%d wall=%.1fs" % (
             prop, self.tier, len(cases), ",".join(drivers), cov["discharged"], cov["obligations"],
             len(divergences), len(oracle_fail), len(self.known_seen), time.time() - self.t0))
